@@ -69,6 +69,10 @@ def configs(tier):
                             continue
                         out.append(dict(sender=sender, k=k, m=0, style=style, pat=pat,
                                         shared=shared))
+    # the same Event object listed more than once in one list: sent once per occurrence
+    for c in [c for c in out if c['style'] != 'single' and c['k'] + c['m'] >= 1 and c['pat'] in (-1, 2)
+              and not c['shared']]:
+        out.append(dict(c, dup=1))
     # one Event object configured on two sender blocks: 'source' and 'previous' are the sender's
     for pair in (('sb', 'sb'), ('input', 'counter'), ('input', 'not')):
         for k, m in ((1, 0), (0, 1), (1, 1), (2, 1)):
@@ -155,14 +159,15 @@ def expected(cfg, prev, v, name):
     changed = prev is UNDEF or not prev == v
     base = {'previous': prev, 'value': v, 'source': name, 'trigger': 'output'}
     out = []
+    dup = cfg.get('dup')
     if changed:
-        for i in range(k):
+        for i in list(range(k)) + ([0] if dup and k else []):
             d = apply_ref(filt_kind(cfg, i), base)
             if d is not None:
                 out.append((f"o{i}", canon_data(d)))
     if cfg['sender'] in SSENDERS or changed:
         if cfg['sender'] in SSENDERS:
-            for j in range(m):
+            for j in list(range(m)) + ([0] if dup and m else []):
                 d = apply_ref(filt_kind(cfg, k + j), base)
                 if d is not None:
                     out.append((f"e{j}", canon_data(d)))
@@ -188,8 +193,9 @@ def run_history(cfg, hist):
             f = make_filter(filt_kind(cfg, i))
             evs.append(edzed.Event(dests[i], etype, efilter=f) if f is not None
                        else edzed.Event(dests[i], etype))
-        on_output = wrap(evs[:k], cfg['style'])
-        on_every = wrap(evs[k:], cfg['style'])
+        dup = cfg.get('dup')
+        on_output = wrap(evs[:k] + (evs[:1] if dup and k else []), cfg['style'])
+        on_every = wrap(evs[k:] + (evs[k:k + 1] if dup and m else []), cfg['style'])
         first = copy.copy(V[hist[0]])
         kw = {}
         if on_output is not None:
